@@ -72,6 +72,13 @@ Section Norm.
   Definition class_ok (m n : bytes) : bool :=
     if (4 <=? e_proto c)%Z then len32 m && len32 n else negb (has_lf m || has_lf n).
 
+  (* Bytes: BINBYTES from protocol 3; below, _codecs.encode(text, 'latin1') in binary forms *)
+  Definition bytes_ok (s : bytes) : bool :=
+    if (3 <=? e_proto c)%Z then len32 s else (1 <=? e_proto c)%Z && len32 (latin1_to_utf8 s).
+  (* []byte: BYTEARRAY8 at protocol 5; below, bytearray(Bytes) *)
+  Definition barr_ok (s : bytes) : bool :=
+    if (5 <=? e_proto c)%Z then Nlen s <? 2 ^ 63 else bytes_ok s.
+
   Definition norm_ref (pid : option tval) : option tval :=
     if (1 <=? e_proto c)%Z then option_map TRef pid else None.
 
@@ -86,8 +93,8 @@ Section Norm.
     | RStr SPlain s | RStr SNamed s | RStr SUnicode s => norm_text s
     | RStr SByteString s =>
         if (1 <=? e_proto c)%Z && len32 s then Some (if e_strict c then TBStr s else TStr s) else None
-    | RStr SBytes s => if (3 <=? e_proto c)%Z && len32 s then Some (TBytes s) else None
-    | RByteSeq s => if (5 <=? e_proto c)%Z && (Nlen s <? 2 ^ 63) then Some (TBArr s) else None
+    | RStr SBytes s => if bytes_ok s then Some (TBytes s) else None
+    | RByteSeq s => if barr_ok s then Some (TBArr s) else None
     | RTuple l => option_map TTuple (map_opt norm l)
     | RList l => option_map TList (map_opt norm l)
     | RClass m n => if class_ok m n then Some (TClass m n) else None
@@ -136,8 +143,8 @@ Fixpoint fits (c : econfig) (t : tval) : bool :=
   | TFloat f => (1 <=? e_proto c)%Z && (f <? 2 ^ 64)
   | TStr s => (1 <=? e_proto c)%Z && len32 s
   | TBStr s => (1 <=? e_proto c)%Z && len32 s && e_strict c
-  | TBytes s => (3 <=? e_proto c)%Z && len32 s
-  | TBArr s => (5 <=? e_proto c)%Z && (Nlen s <? 2 ^ 63)
+  | TBytes s => bytes_ok c s
+  | TBArr s => barr_ok c s
   | TList l => forallb (fits c) l
   | TTuple l => forallb (fits c) l
   | TClass m n => class_ok c m n
@@ -153,8 +160,8 @@ Fixpoint fits_proto (c : econfig) (t : tval) : bool :=
   | TFloat f => (1 <=? e_proto c)%Z && (f <? 2 ^ 64)
   | TStr s => (1 <=? e_proto c)%Z && len32 s
   | TBStr s => (1 <=? e_proto c)%Z && len32 s
-  | TBytes s => (3 <=? e_proto c)%Z && len32 s
-  | TBArr s => (5 <=? e_proto c)%Z && (Nlen s <? 2 ^ 63)
+  | TBytes s => bytes_ok c s
+  | TBArr s => barr_ok c s
   | TList l => forallb (fits_proto c) l
   | TTuple l => forallb (fits_proto c) l
   | TClass m n => class_ok c m n
